@@ -688,6 +688,8 @@ func checkC13(c *Ctx) {
 	checkPooledBytesEscape(c, "R11")
 	c.Rule("R12", "no rewriting without a compression section: the decompression hook is registered only on the non-nil side of a test of the compression configuration")
 	checkDecompressOnlyWhenConfigured(c, "R12")
+	c.Rule("R15", "the compression section reaches the filter as configured: no code of the proxy clears or replaces the Compression field of a configuration (a section with enable=false still means: decompress what was stored)")
+	checkCompressionSectionNotRewritten(c, "R15")
 	c.Rule("R14", "the whole value is read back: nothing in the compression filter bounds the number of decompressed bytes")
 	checkDecompressionReadsWholeStream(c, "R14")
 	c.Rule("R13", "the filter object, shared by the writer (compress) and the reader goroutine (decompress) of a backend connection, carries no mutable scratch state")
@@ -1382,5 +1384,39 @@ func checkDecompressionReadsWholeStream(c *Ctx, rule string) {
 	}
 	if n == 0 {
 		c.Unresolved(rule, "methods of compressFilter")
+	}
+}
+
+// checkCompressionSectionNotRewritten (C13.R15): the filter registers its decompression hook whenever a compression
+// section is present, enabled or not - values compressed while it was enabled must stay readable after it has been
+// switched off. Code that hands the consumers a "canonical" configuration without the section when enable=false
+// removes the hook with it: clients then read the stored header and snappy stream.
+func checkCompressionSectionNotRewritten(c *Ctx, rule string) {
+	p := c.P
+	n := 0
+	for _, rel := range []string{"proc/redis", "proc", "config", "controller"} {
+		for _, fn := range p.FuncsIn(rel) {
+			if p.isTestFn(fn) {
+				continue
+			}
+			eachInstr(fn, func(_ *ssa.BasicBlock, _ int, in ssa.Instruction) {
+				st, ok := in.(*ssa.Store)
+				if !ok {
+					return
+				}
+				f, base := fieldAddr(st.Addr)
+				if f == nil || f.Name() != "Compression" {
+					return
+				}
+				if n2 := namedOf(derefType(base.Type())); n2 == nil || n2.Obj().Pkg() == nil || !strings.HasPrefix(n2.Obj().Pkg().Path(), modPath+"/pb/") {
+					return
+				}
+				n++
+				c.Fail(rule, fmt.Sprintf("%s rewrites the compression section#%d", fnKey(fn), n), st.Pos(), "the Compression field of a configuration message is written by the proxy: a configuration whose section is dropped or replaced on the way to the filter (e.g. when enable=false) loses the decompression hook, and values stored while compression was on are handed to clients as header and compressed stream")
+			})
+		}
+	}
+	if n == 0 {
+		c.OK(rule, "no store into a Compression field", token.NoPos, "the section is passed on as configured")
 	}
 }
